@@ -321,6 +321,11 @@ class Analyzer:
             if t['c'] == 'int' and t.get('unsigned'):
                 iv = (max(iv[0], 0), iv[1])
             return iv
+        if k == 'bin' and e['op'] == '-':
+            # B.length - B.offset is what is left of the input
+            bl, bo = self.buf_field(e['l'], 'length'), self.buf_field(e['r'], 'offset')
+            if bl and bo and bl == bo.split('#')[0] and bo in st.buf:
+                return st.buf[bo]
         if k == 'bin' and e['op'] in ('+', '-'):
             a, b = self.ieval(e['l'], st), self.ieval(e['r'], st)
             if e['op'] == '+':
@@ -477,6 +482,12 @@ class Analyzer:
         if old_counts and iv[1] < POS and old_iv[0] > NEG and iv[1] <= old_iv[0] and iv[0] >= 0:
             for B in old_counts:
                 st.acc = st.acc | {(('cnt', B, 0), ref['d'])}
+        if rhs is not None and strip_casts(rhs).get('k') == 'ref' and strip_casts(rhs).get('d') != ref['d']:
+            # a copy of a count of readable bytes is one (length = i;)
+            sd = strip_casts(rhs)['d']
+            for a_ in list(st.acc):
+                if isinstance(a_[0], tuple) and a_[0][0] == 'cnt' and a_[1] == sd:
+                    st.acc = st.acc | {(a_[0], ref['d'])}
         if rhs is not None and ref['d'] in self.abs_index:
             r = strip_casts(rhs)
             c = 0
@@ -945,6 +956,16 @@ class Analyzer:
             return st
         if k != 'bin' or e['op'] not in CMP_OPS:
             return st
+        # the buffer pointer itself: once it was found non-NULL (and it is never assigned) it stays so; can_access re-tests it
+        if e['op'] in ('==', '!=') and (is_null_const(e['l']) or is_null_const(e['r'])):
+            other = strip_casts(e['l'] if is_null_const(e['r']) else e['r'])
+            if other.get('k') == 'ref' and other.get('dk') == 'param' and self.is_pbuf_type(other.get('ty0', other['ty'])):
+                nonnull = (e['op'] == '!=') == truth
+                if nonnull:
+                    st.acc = st.acc | {('nn', other['n'])}
+                elif ('nn', other['n']) in st.acc:
+                    return None
+                return st
         op = e['op']
         if not truth:
             op = {'<': '>=', '>=': '<', '>': '<=', '<=': '>', '==': '!=', '!=': '=='}[op]
@@ -1159,7 +1180,7 @@ class Analyzer:
                     # offset + v <= length: v bytes are readable at the cursor (can_read(buffer, v))
                     st.acc = st.acc | {(('cnt', B, 0), var['d'])}
                 if op == '<':
-                    st.acc = st.acc | {(('cur', B, 0), var['d'])}
+                    st.acc = st.acc | {(('cur', B, 0), var['d']), (('cnt', B, 0), var['d'])}
                     iv = self.ieval(var, st)
                     if iv[0] > NEG and not self.set_avail(st, ('cur', B, 0), lo=iv[0] + 1):
                         return None
@@ -1180,6 +1201,13 @@ class Analyzer:
                 elif iv[1] == kk:
                     ok = self.set_avail(st, ('cur', B, 0), hi=kk - 1)
             return st if ok else None
+        if a[0] == 'len' and b[0] == 'off' and a[1] == b[1] and b[3] is not None and b[2] is None and op in ('<', '<='):
+            # length <= offset + v: what is left of the input is at most the largest value v can have
+            iv = self.ieval(b[3], st)
+            if iv[1] < POS:
+                if not self.set_avail(st, ('cur', a[1], 0), hi=iv[1] - (1 if op == '<' else 0)):
+                    return None
+            return st
         if a[0] == 'len' and b[0] == 'off' and a[1] == b[1] and b[3] is None:
             B, kk = a[1], b[2]
             if op == '<':     # length < offset + k
